@@ -1,4 +1,5 @@
 import J5V.Bcl.FmtInv
+import J5V.Bcl.EraseProofs
 /-!
 # The walker reads the canonical tokens of a formatted file back to the same fragments
 (lemmas for C09: `walkFragments_fileToks`).  All tokens here carry position `0:0`.
@@ -282,11 +283,6 @@ theorem bind_eq_of_ok {α β : Type} {m : WM α} {k : α → WM β} {w w1 : W} {
 theorem getW_bind' {β : Type} (k : W → WM β) (w : W) : (getW >>= k) w = k w w := rfl
 
 theorem pure_apply {α : Type} (a : α) (w : W) : (pure a : WM α) w = .ok a w := rfl
-
-theorem Value.eraseList_eq_map (vs : List Value) : Value.eraseList vs = vs.map Value.erase := by
-  induction vs with
-  | nil => rfl
-  | cons v vs ih => simp [Value.eraseList, ih]
 
 /-- the first canonical token of a value is a literal or `[` -/
 theorem valToks_head (cls : Cls) (v : Value) (h : VOK cls v) :
@@ -870,7 +866,8 @@ theorem hdrFinish_canon (cls : Cls) (h : BlockHeader) (hwf : HeaderWF cls h) (re
         ⟨prev, hdrEndToks h ++ (commentToks h.src.comment ++ eolTok :: rest)⟩ =
       .ok (.header ⟨ref, tags, quals, h.description.map Description.erase, h.isOpen,
         ⟨ref.span.start, ⟨0, 0⟩, h.src.comment.map CommentNode.erase⟩⟩) ⟨prev', rest'⟩ ∧
-      PZ prev' ∧ (rest' = rest ∨ rest' = eolTok :: rest) := by
+      PZ prev' ∧ ((rest' = rest ∧ prev' = some eolTok) ∨
+        (rest' = eolTok :: rest ∧ h.isOpen = false ∧ h.src.comment = none)) := by
   unfold hdrFinish hdrEndToks
   rw [getW_bind']
   cases hd : h.description with
@@ -884,7 +881,7 @@ theorem hdrFinish_canon (cls : Cls) (h : BlockHeader) (hwf : HeaderWF cls h) (re
     rw [hnt]
     simp only []
     rw [bind_eq_of_ok (popToken_cons' _ _ _), getW_bind']
-    refine ⟨some tok.erase, eolTok :: rest, ?_, PZ_some rfl, Or.inr rfl⟩
+    refine ⟨some tok.erase, eolTok :: rest, ?_, PZ_some rfl, Or.inr ⟨rfl, by simp, by simp⟩⟩
     simp [pure_apply, Description.erase, h1, h4, Token.erase, W.currentPos, Span.zero]
   | none =>
     simp only [List.append_nil, Option.map_none]
@@ -897,7 +894,7 @@ theorem hdrFinish_canon (cls : Cls) (h : BlockHeader) (hwf : HeaderWF cls h) (re
       simp only []
       rw [bind_eq_of_ok (popToken_cons' _ _ _), getW_bind',
         bind_eq_of_ok (endStatement_canon h.src.comment _ rest)]
-      exact ⟨some eolTok, rest, by simp [pure_apply, W.currentPos, lbraceTok], PZ_some rfl, Or.inl rfl⟩
+      exact ⟨some eolTok, rest, by simp [pure_apply, W.currentPos, lbraceTok], PZ_some rfl, Or.inl ⟨rfl, rfl⟩⟩
     | false =>
       simp only [Bool.false_eq_true, if_false, List.nil_append]
       cases hc : h.src.comment with
@@ -906,13 +903,13 @@ theorem hdrFinish_canon (cls : Cls) (h : BlockHeader) (hwf : HeaderWF cls h) (re
         rw [hnt]
         simp only []
         rw [bind_eq_of_ok (endStatement_canon (some c) _ rest)]
-        exact ⟨some eolTok, rest, by simp [pure_apply, currentPos_of_PZ hpz], PZ_some rfl, Or.inl rfl⟩
+        exact ⟨some eolTok, rest, by simp [pure_apply, currentPos_of_PZ hpz], PZ_some rfl, Or.inl ⟨rfl, rfl⟩⟩
       | none =>
         have hnt : (⟨prev, commentToks none ++ eolTok :: rest⟩ : W).nextType = .eol := rfl
         rw [hnt]
         simp only []
         exact ⟨prev, eolTok :: rest,
-          by simp [pure_apply, currentPos_of_PZ hpz, commentToks], hpz, Or.inr rfl⟩
+          by simp [pure_apply, currentPos_of_PZ hpz, commentToks], hpz, Or.inr ⟨rfl, by simp, by simp⟩⟩
 
 /-- kinds of the token after the tags and qualifiers of a header -/
 def EndTy (ty : TokenType) : Prop := ty = .lbrace ∨ ty = .description ∨ ty = .comment ∨ ty = .eol
@@ -956,7 +953,8 @@ theorem walkStatement_header (cls : Cls) (fuel : Nat) (h : BlockHeader) (hwf : H
     (hf2 : h.qualifiers.length < fuel) :
     ∃ prev' rest', walkStatement fuel
         ⟨prev, canonParts (headerTokens h) ++ (commentToks h.src.comment ++ eolTok :: rest)⟩ =
-      .ok (.header h.erase) ⟨prev', rest'⟩ ∧ PZ prev' ∧ (rest' = rest ∨ rest' = eolTok :: rest) := by
+      .ok (.header h.erase) ⟨prev', rest'⟩ ∧ PZ prev' ∧ ((rest' = rest ∧ prev' = some eolTok) ∨
+        (rest' = eolTok :: rest ∧ h.isOpen = false ∧ h.src.comment = none)) := by
   rw [canonParts_headerTokens cls h hwf, walkStatement_split]
   simp only [List.append_assoc]
   obtain ⟨ety, hE, hEty⟩ := hdrEnd_head cls h hwf rest
@@ -1002,9 +1000,6 @@ theorem walkStatement_header (cls : Cls) (fuel : Nat) (h : BlockHeader) (hwf : H
 
 def assignTok : Token := ⟨.assign, [61], ⟨0, 0⟩, ⟨0, 0⟩⟩
 def plusTok : Token := ⟨.plus, [43], ⟨0, 0⟩, ⟨0, 0⟩⟩
-
-theorem Value.erase_span (v : Value) : v.erase.span = Span.zero := by
-  cases v <;> simp [Value.erase, Value.span]
 
 theorem VOK_of_TopValueWF {cls : Cls} {v : Value} {cm : Option CommentNode}
     (h : TopValueWF cls v cm) : VOK cls v := by
@@ -1087,5 +1082,465 @@ theorem walkStatement_assign (cls : Cls) (fuel : Nat) (a : Assignment) (hwf : As
         ≠ .assign) := by simp [W.nextType, assignTok]
     rw [if_neg hnt3, bind_eq_of_ok (walkValueAssign_canon cls fuel _ true a.value hv _ _ rest hf)]
     simp [pure_apply, Assignment.erase, SourceNode.erase, Reference.erase, Span.zero, happ]
+
+/-! ## fragments -/
+
+theorem nextFragment_eol (fuel : Nat) (prev : Option Token) (rest : List Token) :
+    nextFragment fuel ⟨prev, eolTok :: rest⟩ = .ok none ⟨some eolTok, rest⟩ := by
+  unfold nextFragment
+  rw [getW_bind']
+  have hnt : (⟨prev, eolTok :: rest⟩ : W).nextType = .eol := rfl
+  rw [hnt]
+  simp only []
+  rw [bind_eq_of_ok (popToken_cons' _ _ _)]
+  rfl
+
+/-- `nextFragment` on a statement line -/
+theorem nextFragment_stmt (fuel : Nat) (prev : Option Token) (t : Token) (ts : List Token)
+    (h : t.ty = .ident ∨ t.ty = .bool) :
+    nextFragment fuel ⟨prev, t :: ts⟩ =
+      (walkStatement fuel >>= fun f => pure (some f)) ⟨prev, t :: ts⟩ := by
+  unfold nextFragment
+  rw [getW_bind']
+  have hnt : (⟨prev, t :: ts⟩ : W).nextType = t.ty := rfl
+  rw [hnt]
+  rcases h with h | h <;> rw [h]
+
+/-- the lines after the first one of a description: `EOL DESCRIPTION` pairs -/
+def descRestToks (ls : List (List Rune)) : List Token := ls.flatMap fun l => [eolTok, descTok l]
+
+theorem descLineToks_cons (l : List Rune) (ls : List (List Rune)) :
+    descLineToks (l :: ls) = descTok l :: (descRestToks ls ++ [eolTok]) := by
+  induction ls generalizing l with
+  | nil => rfl
+  | cons l' ls ih =>
+    have := ih l'
+    simp only [descLineToks, List.flatMap_cons, List.cons_append, List.nil_append, descRestToks] at this ⊢
+    rw [this]
+
+theorem popDescLoop_canon : ∀ (ls : List (List Rune)) (toks : List Token) (last : Token)
+    (rest : List Token), headTy rest ≠ some .description →
+    popDescLoop toks last (descRestToks ls ++ eolTok :: rest) =
+      (toks ++ ls.map descTok, ((last :: ls.map descTok).getLast (by simp)),
+        ⟨some ((last :: ls.map descTok).getLast (by simp)), eolTok :: rest⟩) := by
+  intro ls
+  induction ls with
+  | nil =>
+    intro toks last rest hrest
+    simp only [descRestToks, List.flatMap_nil, List.nil_append, List.map_nil, List.append_nil,
+      List.getLast_singleton]
+    cases rest with
+    | nil => rfl
+    | cons d rs =>
+      unfold popDescLoop
+      have : ¬ (eolTok.ty = .eol ∧ d.ty = .description) := by
+        intro ⟨_, h⟩; apply hrest; simp [h]
+      rw [if_neg this]
+  | cons l ls ih =>
+    intro toks last rest hrest
+    have e : descRestToks (l :: ls) ++ eolTok :: rest =
+        eolTok :: descTok l :: (descRestToks ls ++ eolTok :: rest) := by
+      simp [descRestToks]
+    rw [e]
+    unfold popDescLoop
+    rw [if_pos ⟨rfl, rfl⟩, ih (toks ++ [descTok l]) (descTok l) rest hrest]
+    simp [List.getLast_cons]
+
+theorem descToks_getLast_end (last : Token) (ls : List (List Rune)) (h : last.end_ = ⟨0, 0⟩) :
+    ((last :: ls.map descTok).getLast (by simp)).end_ = ⟨0, 0⟩ := by
+  induction ls generalizing last with
+  | nil => simpa using h
+  | cons l ls ih =>
+    simp only [List.map_cons]
+    rw [List.getLast_cons (by simp)]
+    exact ih (descTok l) rfl
+
+/-- `nextFragment` reads the canonical tokens of a re-flowed description -/
+theorem nextFragment_descToks (fuel : Nat) (l : List Rune) (ls : List (List Rune)) (prev : Option Token)
+    (rest : List Token) (hrest : headTy rest ≠ some .description) :
+    ∃ p, nextFragment fuel ⟨prev, descLineToks (l :: ls) ++ rest⟩ =
+      .ok (some (.desc ⟨(l :: ls).map descTok, joinWith [cNL] (l :: ls), Span.zero⟩))
+        ⟨some p, eolTok :: rest⟩ ∧ p.end_ = ⟨0, 0⟩ := by
+  refine ⟨(descTok l :: ls.map descTok).getLast (by simp), ?_, descToks_getLast_end _ _ rfl⟩
+  rw [descLineToks_cons]
+  simp only [List.cons_append, List.append_assoc, List.nil_append]
+  unfold nextFragment
+  rw [getW_bind']
+  have hnt : (⟨prev, descTok l :: (descRestToks ls ++ eolTok :: rest)⟩ : W).nextType = .description := rfl
+  rw [hnt]
+  simp only []
+  have hd : popDescription ⟨prev, descTok l :: (descRestToks ls ++ eolTok :: rest)⟩ =
+      .ok ⟨(l :: ls).map descTok, joinWith [cNL] (l :: ls), Span.zero⟩
+        ⟨some ((descTok l :: ls.map descTok).getLast (by simp)), eolTok :: rest⟩ := by
+    unfold popDescription
+    show WM.bind popToken _ _ = _
+    unfold WM.bind
+    rw [popToken_cons']
+    simp only []
+    rw [popDescLoop_canon ls [descTok l] (descTok l) rest hrest]
+    simp only [mkDescription]
+    have h1 : ([descTok l] ++ ls.map descTok).map (·.lit) = l :: ls := by
+      simp [descTok, Function.comp_def]
+    have h2 := descToks_getLast_end (descTok l) ls rfl
+    rw [h1, h2]
+    rfl
+  rw [bind_eq_of_ok hd]
+  rfl
+
+theorem length_le_flatMap {α β : Type} (f : α → List β) (l : List α) (h : ∀ x ∈ l, f x ≠ []) :
+    l.length ≤ (l.flatMap f).length := by
+  induction l with
+  | nil => simp
+  | cons x xs ih =>
+    have hx : 1 ≤ (f x).length := by
+      have := h x (by simp)
+      cases hfx : f x with
+      | nil => exact absurd hfx this
+      | cons a as => simp
+    have := ih (fun y hy => h y (by simp [hy]))
+    simp only [List.flatMap_cons, List.length_append, List.length_cons]
+    omega
+
+theorem tagToks_ne_nil (cls : Cls) (t : TagValue) (h : TagWF cls t) : tagToks t ≠ [] := by
+  obtain ⟨x, xs, e, _⟩ := tagToks_head cls t h
+  rw [e]; simp
+
+theorem lineToks_append (parts : List Token) (cm : Option CommentNode) (rest : List Token) :
+    lineToks parts cm ++ rest = canonParts parts ++ (commentToks cm ++ eolTok :: rest) := by
+  simp [lineToks]
+
+/-- the fragment's own EOL is left for the loop: not an assignment, not an open header, no trailing
+comment -/
+def NoEnd (f : Fragment) : Prop :=
+  (∀ a, f ≠ .assign a) ∧ ∀ h, f = .header h → h.isOpen = false ∧ h.src.comment = none
+
+theorem NoEnd.close (c : CloseBlock) : NoEnd (.close c) :=
+  ⟨(fun a ha => by cases ha), (fun h hh => by cases hh)⟩
+theorem NoEnd.comment (c : Comment) : NoEnd (.comment c) :=
+  ⟨(fun a ha => by cases ha), (fun h hh => by cases hh)⟩
+theorem NoEnd.desc (d : Description) : NoEnd (.desc d) :=
+  ⟨(fun a ha => by cases ha), (fun h hh => by cases hh)⟩
+theorem NoEnd.header {h : BlockHeader} (h1 : h.isOpen = false) (h2 : h.src.comment = none) :
+    NoEnd (.header h) :=
+  ⟨(fun a ha => by cases ha), (fun h' hh => by cases hh; exact ⟨h1, h2⟩)⟩
+
+/-- `nextFragment` reads the canonical tokens of a well-formed fragment back to the normalised fragment;
+the fragment's final EOL is consumed or is the next token -/
+theorem nextFragment_frag (cls : Cls) (pfuel : Nat) (indent : Nat) (f : Fragment) (hwf : FragWF cls f)
+    (prev : Option Token) (hpz : PZ prev) (rest : List Token)
+    (hdesc : ∀ d, f = .desc d → headTy rest ≠ some .description)
+    (hfuel : 2 * (fragToks cls indent f).length ≤ pfuel) :
+    ∃ prev' rest', nextFragment pfuel ⟨prev, fragToks cls indent f ++ rest⟩ =
+        .ok (some (normFrag cls indent f)) ⟨prev', rest'⟩ ∧ PZ prev' ∧
+      ((rest' = rest ∧ prev' = some eolTok) ∨ (rest' = eolTok :: rest ∧ NoEnd f)) := by
+  cases f with
+  | header h =>
+    have hwf' : HeaderWF cls h := hwf
+    simp only [fragToks] at hfuel ⊢
+    rw [lineToks_append]
+    have hlen : (lineToks (headerTokens h) h.src.comment).length =
+        (canonParts (referenceTokens h.type)).length + ((h.tags.flatMap tagToks).length +
+          ((qualsToks h.qualifiers).length + (hdrEndToks h).length)) +
+          (commentToks h.src.comment).length + 1 := by
+      simp only [lineToks, canonParts_headerTokens cls h hwf', List.length_append, List.length_cons,
+        List.length_nil]
+    have h1 := length_le_flatMap tagToks h.tags (fun t ht => tagToks_ne_nil cls t (hwf'.2.1 t ht))
+    have h2 : h.qualifiers.length ≤ (qualsToks h.qualifiers).length :=
+      length_le_flatMap _ h.qualifiers (fun t _ => by simp)
+    obtain ⟨t, ts, e, hty⟩ := referenceToks_head cls h.type hwf'.1
+    have e' : canonParts (headerTokens h) = t :: (ts ++ (h.tags.flatMap tagToks ++
+        (qualsToks h.qualifiers ++ hdrEndToks h))) := by
+      rw [canonParts_headerTokens cls h hwf', e]; rfl
+    obtain ⟨prev', rest', hw, hpz', hr⟩ := walkStatement_header cls pfuel h hwf' prev rest
+      (by omega) (by omega)
+    have hr' : (rest' = rest ∧ prev' = some eolTok) ∨ (rest' = eolTok :: rest ∧ NoEnd (.header h)) := by
+      rcases hr with hr | ⟨hr1, hr2, hr3⟩
+      · exact Or.inl hr
+      · exact Or.inr ⟨hr1, NoEnd.header hr2 hr3⟩
+    refine ⟨prev', rest', ?_, hpz', hr'⟩
+    have hn := nextFragment_stmt pfuel prev t (ts ++ (h.tags.flatMap tagToks ++
+        (qualsToks h.qualifiers ++ hdrEndToks h)) ++ (commentToks h.src.comment ++ eolTok :: rest)) hty
+    rw [e'] at hw ⊢
+    simp only [List.cons_append] at hw hn ⊢
+    rw [hn, bind_eq_of_ok hw]
+    rfl
+  | assign a =>
+    have hwf' : AssignWF cls a := hwf
+    simp only [fragToks] at hfuel ⊢
+    rw [lineToks_append]
+    have hlen : (valToks a.value).length ≤ (lineToks (assignTokens a) a.src.comment).length := by
+      simp only [lineToks, canonParts_assignTokens cls a hwf', List.length_append]
+      omega
+    obtain ⟨t, ts, e, hty⟩ := referenceToks_head cls a.key hwf'.1
+    have e' : canonParts (assignTokens a) = t :: (ts ++
+        ((if a.append then [plusTok, assignTok] else [assignTok]) ++ valToks a.value)) := by
+      rw [canonParts_assignTokens cls a hwf', e]; rfl
+    have hw := walkStatement_assign cls pfuel a hwf' prev rest (by omega)
+    refine ⟨some eolTok, rest, ?_, PZ_some rfl, Or.inl ⟨rfl, rfl⟩⟩
+    have hn := nextFragment_stmt pfuel prev t (ts ++
+        ((if a.append then [plusTok, assignTok] else [assignTok]) ++ valToks a.value) ++
+        (commentToks a.src.comment ++ eolTok :: rest)) hty
+    rw [e'] at hw ⊢
+    simp only [List.cons_append] at hw hn ⊢
+    rw [hn, bind_eq_of_ok hw]
+    rfl
+  | close c =>
+    have hwf' : CloseWF cls c := hwf
+    refine ⟨some c.token.erase, eolTok :: rest, ?_, PZ_some rfl, Or.inr ⟨rfl, NoEnd.close c⟩⟩
+    have e : fragToks cls indent (.close c) ++ rest = c.token.erase :: eolTok :: rest := by
+      simp only [fragToks, lineToks]
+      rw [cparts_cons _ _ (by rw [hwf'.1]; decide), canonParts_nil,
+        canonTok_ty_ne (by rw [hwf'.1]; decide) (by rw [hwf'.1]; decide)]
+      rfl
+    rw [e]
+    unfold nextFragment
+    rw [getW_bind']
+    have hnt : (⟨prev, c.token.erase :: eolTok :: rest⟩ : W).nextType = .rbrace := by
+      simp [W.nextType, Token.erase, hwf'.1]
+    rw [hnt]
+    simp only []
+    rw [bind_eq_of_ok (popToken_cons' _ _ _)]
+    rfl
+  | comment c =>
+    have hwf' : CommentWF cls c := hwf
+    have hns : c.token.ty ≠ .space := by rcases hwf'.1 with h | h <;> rw [h] <;> decide
+    have hni : c.token.ty ≠ .ident := by rcases hwf'.1 with h | h <;> rw [h] <;> decide
+    have hnb : c.token.ty ≠ .bool := by rcases hwf'.1 with h | h <;> rw [h] <;> decide
+    refine ⟨some c.token.erase, eolTok :: rest, ?_, PZ_some rfl, Or.inr ⟨rfl, NoEnd.comment c⟩⟩
+    have e : fragToks cls indent (.comment c) ++ rest = c.token.erase :: eolTok :: rest := by
+      simp only [fragToks, lineToks]
+      rw [cparts_cons _ _ hns, canonParts_nil, canonTok_ty_ne hni hnb]
+      rfl
+    rw [e]
+    unfold nextFragment
+    rw [getW_bind']
+    have hnt : (⟨prev, c.token.erase :: eolTok :: rest⟩ : W).nextType = c.token.ty := by
+      simp [W.nextType, Token.erase]
+    rw [hnt]
+    have hres : (Fragment.comment ⟨c.token.erase, c.token.erase.lit,
+        ⟨c.token.erase.start, c.token.erase.end_⟩⟩) = normFrag cls indent (.comment c) := by
+      simp [normFrag, Fragment.erase, Comment.erase, hwf'.2.2, Token.erase, Span.zero]
+    rcases hwf'.1 with h | h
+    · rw [h]
+      simp only []
+      rw [bind_eq_of_ok (popToken_cons' _ _ _), pure_apply, hres]
+    · rw [h]
+      simp only []
+      rw [bind_eq_of_ok (popToken_cons' _ _ _), pure_apply, hres]
+  | desc d =>
+    simp only [fragToks, normFrag]
+    have hne : descLines cls indent d ≠ [] := by
+      unfold descLines
+      simp only []
+      split
+      · simp
+      · assumption
+    cases hl : descLines cls indent d with
+    | nil => exact absurd hl hne
+    | cons l ls =>
+      obtain ⟨p, hp, hpe⟩ := nextFragment_descToks pfuel l ls prev rest (hdesc d rfl)
+      exact ⟨some p, eolTok :: rest, hp, PZ_some hpe, Or.inr ⟨rfl, NoEnd.desc d⟩⟩
+
+/-! ## the fragment loop over a whole file -/
+
+theorem loop_ok_some {ff : Bool} {pf fuel : Nat} {w w1 : W} {frags : List Fragment} {errs : List Diag}
+    {f : Fragment} (hne : w.nextType ≠ .eof) (h : nextFragment pf w = .ok (some f) w1) :
+    walkFragmentsLoop ff pf (fuel + 1) w frags errs =
+      walkFragmentsLoop ff pf fuel w1 (frags ++ [f]) errs := by
+  conv => lhs; unfold walkFragmentsLoop
+  rw [if_neg hne, h]
+
+theorem loop_ok_none {ff : Bool} {pf fuel : Nat} {w w1 : W} {frags : List Fragment} {errs : List Diag}
+    (hne : w.nextType ≠ .eof) (h : nextFragment pf w = .ok none w1) :
+    walkFragmentsLoop ff pf (fuel + 1) w frags errs = walkFragmentsLoop ff pf fuel w1 frags errs := by
+  conv => lhs; unfold walkFragmentsLoop
+  rw [if_neg hne, h]
+
+theorem loop_eof {ff : Bool} {pf fuel : Nat} {w : W} {frags : List Fragment} {errs : List Diag}
+    (h : w.nextType = .eof) : walkFragmentsLoop ff pf (fuel + 1) w frags errs = .done frags errs := by
+  unfold walkFragmentsLoop
+  rw [if_pos h]
+
+theorem nextFragment_some_ne_eof {pf : Nat} {w w1 : W} {f : Fragment}
+    (h : nextFragment pf w = .ok (some f) w1) : w.nextType ≠ .eof := by
+  intro e
+  unfold nextFragment at h
+  rw [getW_bind', e] at h
+  simp only [] at h
+  cases hp : popToken w with
+  | ok a w2 => rw [bind_eq_of_ok hp] at h; cases h
+  | fail e2 w2 =>
+    have : (popToken >>= fun _ => (pure none : WM (Option Fragment))) w = .fail e2 w2 := by
+      show WM.bind popToken _ w = _
+      unfold WM.bind; rw [hp]
+    rw [this] at h; cases h
+  | panic s2 =>
+    have : (popToken >>= fun _ => (pure none : WM (Option Fragment))) w = .panic s2 := by
+      show WM.bind popToken _ w = _
+      unfold WM.bind; rw [hp]
+    rw [this] at h; cases h
+
+/-- the first canonical token of a fragment; it is a DESCRIPTION token only for a description -/
+theorem fragToks_head (cls : Cls) (indent : Nat) (f : Fragment) (hwf : FragWF cls f) :
+    ∃ x xs, fragToks cls indent f = x :: xs ∧ xs ≠ [] ∧ ((∃ d, f = .desc d) ∨ x.ty ≠ .description) := by
+  cases f with
+  | header h =>
+    have hwf' : HeaderWF cls h := hwf
+    obtain ⟨t, ts, e, hty⟩ := referenceToks_head cls h.type hwf'.1
+    refine ⟨t, ts ++ (h.tags.flatMap tagToks ++ (qualsToks h.qualifiers ++ hdrEndToks h)) ++
+      (commentToks h.src.comment ++ [eolTok]), ?_, by simp, Or.inr ?_⟩
+    · simp only [fragToks, lineToks, canonParts_headerTokens cls h hwf', e]
+      simp
+    · rcases hty with q | q <;> rw [q] <;> decide
+  | assign a =>
+    have hwf' : AssignWF cls a := hwf
+    obtain ⟨t, ts, e, hty⟩ := referenceToks_head cls a.key hwf'.1
+    refine ⟨t, ts ++ ((if a.append then [plusTok, assignTok] else [assignTok]) ++ valToks a.value) ++
+      (commentToks a.src.comment ++ [eolTok]), ?_, by simp, Or.inr ?_⟩
+    · simp only [fragToks, lineToks, canonParts_assignTokens cls a hwf', e]
+      simp
+    · rcases hty with q | q <;> rw [q] <;> decide
+  | close c =>
+    have hwf' : CloseWF cls c := hwf
+    refine ⟨c.token.erase, [eolTok], ?_, by simp, Or.inr (by simp [Token.erase, hwf'.1])⟩
+    simp only [fragToks, lineToks]
+    rw [cparts_cons _ _ (by rw [hwf'.1]; decide), canonParts_nil,
+      canonTok_ty_ne (by rw [hwf'.1]; decide) (by rw [hwf'.1]; decide)]
+    rfl
+  | comment c =>
+    have hwf' : CommentWF cls c := hwf
+    have hns : c.token.ty ≠ .space := by rcases hwf'.1 with h | h <;> rw [h] <;> decide
+    have hni : c.token.ty ≠ .ident := by rcases hwf'.1 with h | h <;> rw [h] <;> decide
+    have hnb : c.token.ty ≠ .bool := by rcases hwf'.1 with h | h <;> rw [h] <;> decide
+    refine ⟨c.token.erase, [eolTok], ?_, by simp, Or.inr ?_⟩
+    · simp only [fragToks, lineToks]
+      rw [cparts_cons _ _ hns, canonParts_nil, canonTok_ty_ne hni hnb]
+      rfl
+    · rcases hwf'.1 with h | h <;> simp [Token.erase, h]
+  | desc d =>
+    have hne : descLines cls indent d ≠ [] := by
+      unfold descLines
+      simp only []
+      split
+      · simp
+      · assumption
+    cases hl : descLines cls indent d with
+    | nil => exact absurd hl hne
+    | cons l ls =>
+      refine ⟨descTok l, descRestToks ls ++ [eolTok], ?_, by simp, Or.inl ⟨d, rfl⟩⟩
+      simp only [fragToks, hl, descLineToks_cons]
+
+theorem fileToks_cons (cls : Cls) (indent : Nat) (lastEnd : Option Nat) (f : Fragment)
+    (fs : List Fragment) :
+    fileToks cls indent lastEnd (f :: fs) =
+      (if gapBefore lastEnd (fmtFragment cls indent f).1.fromLine then [eolTok] else []) ++
+        (fragToks cls indent f ++ fileToks cls (fmtFragment cls indent f).2
+          (some (fmtFragment cls indent f).1.toLine) fs) := by
+  simp [fileToks]
+
+/-- after a description, the next canonical token of the file is not a DESCRIPTION token -/
+theorem fileToks_after_desc (cls : Cls) (indent : Nat) (d : Description) (fs : List Fragment)
+    (hwf : ∀ f ∈ fs, FragWF cls f) (hg : DescGaps (.desc d :: fs)) :
+    headTy (fileToks cls (fmtFragment cls indent (.desc d)).2
+      (some (fmtFragment cls indent (.desc d)).1.toLine) fs) ≠ some .description := by
+  cases fs with
+  | nil => simp [fileToks]
+  | cons g gs =>
+    rw [fileToks_cons]
+    obtain ⟨x, xs, e, _, hx⟩ := fragToks_head cls (fmtFragment cls indent (.desc d)).2 g (hwf g (by simp))
+    rcases hx with ⟨e', rfl⟩ | hx
+    · have hgap := hg.1 d e' rfl rfl
+      have : gapBefore (some (fmtFragment cls indent (.desc d)).1.toLine)
+          (fmtFragment cls (fmtFragment cls indent (.desc d)).2 (.desc e')).1.fromLine = true := by
+        simp only [fmtFragment, multiLineFrag, gapBefore]
+        simpa using hgap
+      rw [this]
+      simp [eolTok]
+    · cases hgp : gapBefore (some (fmtFragment cls indent (.desc d)).1.toLine)
+          (fmtFragment cls (fmtFragment cls indent (.desc d)).2 g).1.fromLine with
+      | true => simp [eolTok]
+      | false =>
+        simp only [Bool.false_eq_true, if_false, List.nil_append]
+        rw [e]
+        simpa using hx
+
+theorem loop_fileToks (cls : Cls) (pf : Nat) : ∀ (frags : List Fragment) (indent : Nat)
+    (lastEnd : Option Nat) (prev : Option Token) (acc : List Fragment) (fuel : Nat),
+    (∀ f ∈ frags, FragWF cls f) → DescGaps frags → PZ prev →
+    2 * (fileToks cls indent lastEnd frags).length ≤ pf →
+    (fileToks cls indent lastEnd frags).length < fuel →
+    walkFragmentsLoop true pf fuel ⟨prev, fileToks cls indent lastEnd frags⟩ acc [] =
+      .done (acc ++ normFrags cls indent frags) [] := by
+  intro frags
+  induction frags with
+  | nil =>
+    intro indent lastEnd prev acc fuel _ _ _ _ hf
+    obtain ⟨f', rfl⟩ : ∃ f', fuel = f' + 1 := ⟨fuel - 1, by omega⟩
+    rw [loop_eof (by simp [fileToks, W.nextType])]
+    simp [normFrags]
+  | cons f fs ih =>
+    intro indent lastEnd prev acc fuel hwf hg hpz hpf hf
+    have hwf_f := hwf f (by simp)
+    have hwf_fs : ∀ g ∈ fs, FragWF cls g := fun g hg' => hwf g (by simp [hg'])
+    have hg_fs : DescGaps fs := by
+      cases fs with
+      | nil => trivial
+      | cons g gs => exact hg.2
+    rw [fileToks_cons] at hpf hf ⊢
+    generalize hR : fileToks cls (fmtFragment cls indent f).2
+      (some (fmtFragment cls indent f).1.toLine) fs = R at hpf hf ⊢
+    obtain ⟨x, xs, ex, hxs, _⟩ := fragToks_head cls indent f hwf_f
+    have hT2 : 2 ≤ (fragToks cls indent f).length := by
+      rw [ex]
+      cases xs with
+      | nil => exact absurd rfl hxs
+      | cons y ys => simp
+    have hdesc : ∀ d, f = .desc d → headTy R ≠ some .description := by
+      intro d hd
+      subst hd
+      rw [← hR]
+      exact fileToks_after_desc cls indent d fs hwf_fs hg
+    -- the common part: from the state in front of the fragment's tokens
+    have main : ∀ (prev1 : Option Token) (fuel1 : Nat), PZ prev1 →
+        (fragToks cls indent f).length + R.length < fuel1 →
+        walkFragmentsLoop true pf fuel1 ⟨prev1, fragToks cls indent f ++ R⟩ acc [] =
+          .done (acc ++ normFrags cls indent (f :: fs)) [] := by
+      intro prev1 fuel1 hpz1 hf1
+      obtain ⟨prev', rest', hn, hpz', hr⟩ := nextFragment_frag cls pf indent f hwf_f prev1 hpz1 R hdesc
+        (by simp only [List.length_append] at hpf; omega)
+      obtain ⟨f1, rfl⟩ : ∃ f1, fuel1 = f1 + 1 := ⟨fuel1 - 1, by omega⟩
+      rw [loop_ok_some (nextFragment_some_ne_eof hn) hn]
+      have hRlen : 2 * R.length ≤ pf := by simp only [List.length_append] at hpf; omega
+      rcases hr with ⟨rfl, _⟩ | ⟨rfl, _⟩
+      · rw [← hR]
+        rw [ih _ _ prev' (acc ++ [normFrag cls indent f]) f1 hwf_fs hg_fs hpz'
+          (by rw [hR]; exact hRlen) (by rw [hR]; omega)]
+        simp [normFrags]
+      · obtain ⟨f2, rfl⟩ : ∃ f2, f1 = f2 + 1 := ⟨f1 - 1, by omega⟩
+        rw [loop_ok_none (by simp [W.nextType, eolTok]) (nextFragment_eol pf prev' R)]
+        rw [← hR]
+        rw [ih _ _ (some eolTok) (acc ++ [normFrag cls indent f]) f2 hwf_fs hg_fs (PZ_some rfl)
+          (by rw [hR]; exact hRlen) (by rw [hR]; omega)]
+        simp [normFrags]
+    cases hgp : gapBefore lastEnd (fmtFragment cls indent f).1.fromLine with
+    | false =>
+      rw [hgp] at hf
+      simp only [Bool.false_eq_true, if_false, List.nil_append, List.length_append] at hf ⊢
+      exact main prev fuel hpz hf
+    | true =>
+      rw [hgp] at hf
+      simp only [if_true, List.cons_append, List.nil_append, List.length_cons, List.length_append] at hf ⊢
+      obtain ⟨f1, rfl⟩ : ∃ f1, fuel = f1 + 1 := ⟨fuel - 1, by omega⟩
+      rw [loop_ok_none (by simp [W.nextType, eolTok]) (nextFragment_eol pf prev _)]
+      exact main (some eolTok) f1 (PZ_some rfl) (by omega)
+
+/-- **the walker reads the canonical tokens of a formatted file back to the normalised fragments** -/
+theorem walkFragments_fileToks (cls : Cls) (frags : List Fragment) (hwf : ∀ f ∈ frags, FragWF cls f)
+    (hg : DescGaps frags) :
+    walkFragments true (fileToks cls 0 none frags) = .done (normFrags cls 0 frags) [] := by
+  unfold walkFragments
+  have := loop_fileToks cls (2 * (fileToks cls 0 none frags).length + 2) frags 0 none none []
+    ((fileToks cls 0 none frags).length + 1) hwf hg PZ_none (by omega) (by omega)
+  simpa using this
 
 end J5V.Bcl
